@@ -41,7 +41,8 @@ ASSUMPTIONS = ["message length >= 1 (length 0 is the wrap marker's encoding); on
                "n_cacheline < 2^31"]
 EVIDENCE_NOTES = [
     "sequential theorems proved in full (shm_seq_refines_fifo, shm_alloc_no_overlap, shm_indices_in_range, shm_drained_accepts_partial with the exact iff, shm_drained_half_refuted); the property's clause 'a drained ring accepts up to half its size' is REFUTED (known finding drained-half)",
-    "concurrent layer: shm_conc_inv_reachable and shm_crash_safe are NOT proved for all interleavings; proved are the memory-order side condition against the re-extracted orders, the reader-step frame lemma (shm_conc_inv_reachable_partial) and the frame half of crash safety for every state (shm_crash_safe_partial), plus concrete executions (non-vacuity, necessity of the release store, writer killed inside the wrap).  Gap: the reachable-state invariant (A.7 with stale cursors and views) over the writer's program points.  Coverage of the gap on every run: every scheduler trace of the real code (1 reader + 1 writer, 2-3 locked writers, writer killed after each atomic operation) must be accepted step by step by the extracted model, whose ghost monitors (uncovered read under the code's orders, overlap, delivered prefix of committed) must stay quiet, and the independent trace monitor checks FIFO / whole messages / no pending message missed",
+    "concurrent layer proved in full: shm_conc_inv_reachable (reachable-state invariant CInv of C08/ProofsConcInv.v for every schedule, ring size, number of writers under the write lock or one writer without it, script, retry bound and kill point; consequences: no uncovered plain read under the extracted memory orders, no store into an unread message or the live marker, delivered is a prefix of committed with exact line / length / payload tag, unread messages intact in memory) and shm_crash_safe as its corollary (any schedule followed by reader-only steps); shm_reader_only_frame holds from any state.  The interleaving model is tied to the code on every run by trace acceptance (1 reader + 1 writer, 2-3 locked writers, writer killed after each atomic operation) with the model's ghost monitors and the independent trace monitor",
+    "not covered by theorems (modelled): payload bytes are abstracted to a tag per message in the interleaving model (byte-exactness is proved in the sequential model and checked by the drivers); the SC + release/acquire-view memory model stands in for C11",
 ]
 
 
@@ -766,7 +767,7 @@ MANIFEST = {
                    "bytes; fetch = nothing iff nothing pending), allocation never overlaps unread data or the live wrap marker, "
                    "indices in range, exact acceptance condition of a drained ring with the refuted 'half the ring' clause as "
                    "known finding; interleaving model (1 reader, locked writers, release/acquire views, memory orders "
-                   "re-extracted) with the reachable-state invariant and crash safety.  Tie: differential run of the extracted "
+                   "re-extracted) with the reachable-state invariant for all interleavings, visibility and crash safety proved.  Tie: differential run of the extracted "
                    "model against the code compiled from the working tree (ASan, exact-size heap ring opened through "
                    "muggle_shm_ringbuf_open; real SysV segment smoke test), deterministic-scheduler trace acceptance for the "
                    "concurrent part, independent FIFO/overlap monitor."),
